@@ -295,12 +295,14 @@ static int ex_lineno(char **num)
 		break;
 	case '\'':
 		if (lbuf_jump(xb, (unsigned char) *++(*num), &n, NULL))
-			return -1;
+			return -2;
 		++*num;
 		break;
 	case '/':
 	case '?':
 		n = ex_search(num);
+		if (n < 0)
+			return -2;
 		break;
 	default:
 		if (isdigit((unsigned char) **num)) {
@@ -337,6 +339,8 @@ static int ex_region(char *loc, int *beg, int *end)
 		*beg = naddr++ ? end0 - 1 : *end - 1;
 		if (!naddr++)
 			*beg = *end - 1;
+		if (*end < 0)
+			return 1;
 		while (*loc && *loc != ';' && *loc != ',')
 			loc++;
 		if (!*loc)
